@@ -18,7 +18,20 @@ ALU = {"ADDQ": ("add", 8), "SUBQ": ("sub", 8), "ANDQ": ("and", 8), "ORQ": ("or",
 JCC = {"JLT": "lt", "JEQ": "eq", "JGT": "gt", "JLE": "le", "JNE": "ne", "JGE": "ge", "JZ": "eq", "JNZ": "ne",
        "JCS": "lt", "JCC": "ge", "JHI": "gt", "JLS": "le", "JLO": "lt", "JHS": "ge"}
 # vector opcodes whose memory source is narrower than the destination register
-BCAST = {"VPBROADCASTD": 4, "VBROADCASTI32X2": 8, "VBROADCASTI32X4": 16}
+BCAST = {"VPBROADCASTD": 4, "VBROADCASTI32X2": 8, "VBROADCASTI32X4": 16, "VPBROADCASTQ": 8, "VPBROADCASTB": 1,
+         "VPBROADCASTW": 2, "VBROADCASTI128": 16, "VINSERTI128": 16, "VEXTRACTI128": 16, "VINSERTI32X4": 16,
+         "VEXTRACTI32X4": 16, "VINSERTI64X4": 32, "VEXTRACTI64X4": 32, "PINSRQ": 8, "PINSRD": 4, "PINSRB": 1,
+         "PEXTRQ": 8, "PEXTRD": 4, "PEXTRB": 1}
+# further SSE / AVX / AVX-512 data-processing opcodes a maintainer may plausibly use: pure data flow (no flags,
+# no data-dependent addressing), memory operand = full vector width unless listed in BCAST
+VEC_MORE = {"VMOVDQU", "VMOVDQA", "VMOVDQA32", "VMOVDQU16", "VMOVUPS", "VMOVUPD", "VMOVAPS", "MOVOU", "MOVOA",
+            "MOVUPS", "MOVAPS", "MOVUPD", "MOVAPD", "PXOR", "VPXOR", "POR", "VPOR", "PAND", "VPAND", "PANDN", "VPANDN",
+            "VPANDQ", "VPANDND", "VPANDNQ", "VPORQ", "PSHUFB", "PSHUFD", "VPSHUFD", "PADDL", "PADDQ", "PADDB", "PADDW",
+            "PSUBL", "PSUBQ", "VPADDQ", "VPADDB", "VPADDW", "VPSUBD", "VPSUBQ", "PCLMULQDQ", "VPTERNLOGD", "VPTERNLOGQ",
+            "VPRORD", "VPROLQ", "VPRORQ", "VPBLENDD", "VPBLENDW", "PBLENDW", "VPALIGNR", "PALIGNR", "VPERMD",
+            "VPERM2I128", "VSHUFI32X4", "VSHUFI64X2", "PSLLL", "PSRLL", "PSLLQ", "PSRLQ", "PSRLO", "VPSLLD", "VPSRLD",
+            "VPSRLQ", "VPSLLW", "VPSRAD", "PUNPCKLLQ", "PUNPCKHLQ", "PUNPCKLQDQ", "PUNPCKHQDQ", "PUNPCKLBW", "PUNPCKHBW",
+            "VPUNPCKLBW", "VPUNPCKHBW", "VPUNPCKLWD", "VPUNPCKHWD"} | set(BCAST)
 VEC_OK = {"VPXORD", "VPROLD", "VPBROADCASTD", "VGF2P8AFFINEQB", "VGF2P8AFFINEINVQB", "VPCLMULQDQ", "VMOVDQU32",
           "VPSHUFB", "VPSRLDQ", "VPSLLDQ", "VPANDD", "VPUNPCKLDQ", "VPUNPCKHDQ", "VPADDD", "VPSRLW", "VPUNPCKLQDQ",
           "VPUNPCKHQDQ", "VPERMQ", "VMOVDQA64", "VBROADCASTI32X2", "VALIGND", "VBROADCASTI32X4", "VMOVAPD",
@@ -95,7 +108,9 @@ def classify(op, ops, where):
         ins.update(cl="alu", fn=ALU[op][0], a=o[0], b=o[1], w=ALU[op][1])
     elif op == "KMOVW":
         ins.update(cl="mov", a=o[0], b=o[1], w=2)
-    elif op in VEC_OK:
+    elif op in ("VZEROUPPER", "VZEROALL"):
+        ins["cl"] = "nop"
+    elif op in VEC_OK or op in VEC_MORE:
         srcs, dst = o[:-1], o[-1]
         mask = [x for x in srcs if x["k"] == "kr"]
         srcs = [x for x in srcs if x["k"] not in ("i", "kr")]
